@@ -1,0 +1,235 @@
+//! Verification hooks; only compiled with `--cfg fontc_verif`.
+//!
+//! Everything here is inert unless a sink is installed, either by calling
+//! [`install`] or by setting `FONTC_VERIF_TRACE=<path>` in the environment.
+//!
+//! Events are written as one JSON object per line. Each event gets a global
+//! sequence number that is assigned while the sink mutex is held, so the file
+//! order is the sequence order.
+
+use std::{
+    cell::RefCell,
+    fs::File,
+    io::{BufWriter, Write},
+    sync::{
+        Mutex, OnceLock,
+        atomic::{AtomicBool, AtomicU64, Ordering},
+    },
+};
+
+struct Sink {
+    out: BufWriter<File>,
+    seq: u64,
+}
+
+static ENABLED: AtomicBool = AtomicBool::new(false);
+static SINK: Mutex<Option<Sink>> = Mutex::new(None);
+static ENV_INIT: OnceLock<()> = OnceLock::new();
+static JITTER: AtomicU64 = AtomicU64::new(0);
+static JITTER_MAX_US: AtomicU64 = AtomicU64::new(200);
+static READBACK: AtomicBool = AtomicBool::new(false);
+static FAULT: Mutex<Option<(String, String)>> = Mutex::new(None);
+
+thread_local! {
+    static CURRENT_JOB: RefCell<Option<String>> = const { RefCell::new(None) };
+}
+
+fn env_init() {
+    ENV_INIT.get_or_init(|| {
+        if let Ok(path) = std::env::var("FONTC_VERIF_TRACE")
+            && !path.is_empty()
+        {
+            install(&path);
+        }
+        if let Ok(seed) = std::env::var("FONTC_VERIF_JITTER")
+            && let Ok(seed) = seed.parse::<u64>()
+        {
+            set_jitter(seed);
+        }
+        if let Ok(max) = std::env::var("FONTC_VERIF_JITTER_MAX_US")
+            && let Ok(max) = max.parse::<u64>()
+        {
+            JITTER_MAX_US.store(max.max(1), Ordering::Relaxed);
+        }
+        if std::env::var("FONTC_VERIF_READBACK").is_ok() {
+            set_readback(true);
+        }
+        if let Ok(fault) = std::env::var("FONTC_VERIF_FAULT")
+            && let Some((job, kind)) = fault.rsplit_once('=')
+        {
+            set_fault(Some((job.to_string(), kind.to_string())));
+        }
+    });
+}
+
+/// Start recording events to `path` (truncates).
+pub fn install(path: &str) {
+    if let Ok(file) = File::create(path)
+        && let Ok(mut sink) = SINK.lock()
+    {
+        *sink = Some(Sink {
+            out: BufWriter::new(file),
+            seq: 0,
+        });
+        ENABLED.store(true, Ordering::SeqCst);
+    }
+}
+
+/// Stop recording and flush.
+pub fn uninstall() {
+    ENABLED.store(false, Ordering::SeqCst);
+    if let Ok(mut sink) = SINK.lock() {
+        if let Some(sink) = sink.as_mut() {
+            let _ = sink.out.flush();
+        }
+        *sink = None;
+    }
+}
+
+/// Flush without uninstalling.
+pub fn flush() {
+    if let Ok(mut sink) = SINK.lock()
+        && let Some(sink) = sink.as_mut()
+    {
+        let _ = sink.out.flush();
+    }
+}
+
+#[inline]
+pub fn enabled() -> bool {
+    env_init();
+    ENABLED.load(Ordering::Relaxed)
+}
+
+/// A non-zero seed makes [`jitter`] sleep for a pseudo-random short time.
+pub fn set_jitter(seed: u64) {
+    JITTER.store(seed, Ordering::SeqCst);
+}
+
+pub fn set_jitter_max_us(max: u64) {
+    JITTER_MAX_US.store(max.max(1), Ordering::SeqCst);
+}
+
+/// Perturb timing at a hook point; a no-op unless a jitter seed is set.
+pub fn jitter() {
+    env_init();
+    let mut s = JITTER.load(Ordering::Relaxed);
+    if s == 0 {
+        return;
+    }
+    // xorshift; races between threads only add more entropy
+    s ^= s << 13;
+    s ^= s >> 7;
+    s ^= s << 17;
+    if s == 0 {
+        s = 0x9E3779B97F4A7C15;
+    }
+    JITTER.store(s, Ordering::Relaxed);
+    let max = JITTER_MAX_US.load(Ordering::Relaxed);
+    match s % 4 {
+        0 => std::thread::sleep(std::time::Duration::from_micros((s >> 8) % max)),
+        1 => std::thread::yield_now(),
+        _ => (),
+    }
+}
+
+pub fn set_readback(on: bool) {
+    READBACK.store(on, Ordering::SeqCst);
+}
+
+/// Whether persisted writes should be read back and compared.
+pub fn readback() -> bool {
+    env_init();
+    READBACK.load(Ordering::Relaxed)
+}
+
+/// Arrange for the job whose id prints as `job` to `panic` or `fail`.
+pub fn set_fault(fault: Option<(String, String)>) {
+    if let Ok(mut f) = FAULT.lock() {
+        *f = fault;
+    }
+}
+
+/// Returns the kind of fault, if any, to inject into `job`.
+pub fn fault_for(job: &str) -> Option<String> {
+    env_init();
+    let f = FAULT.lock().ok()?;
+    let (target, kind) = f.as_ref()?;
+    (target == job).then(|| kind.clone())
+}
+
+pub fn set_current_job(job: Option<String>) {
+    CURRENT_JOB.with(|c| *c.borrow_mut() = job);
+}
+
+pub fn current_job() -> Option<String> {
+    CURRENT_JOB.with(|c| c.borrow().clone())
+}
+
+/// JSON string literal for `s`
+pub fn jstr(s: &str) -> String {
+    let mut out = String::with_capacity(s.len() + 2);
+    out.push('"');
+    for c in s.chars() {
+        match c {
+            '"' => out.push_str("\\\""),
+            '\\' => out.push_str("\\\\"),
+            '\n' => out.push_str("\\n"),
+            '\r' => out.push_str("\\r"),
+            '\t' => out.push_str("\\t"),
+            c if (c as u32) < 0x20 => out.push_str(&format!("\\u{:04x}", c as u32)),
+            c => out.push(c),
+        }
+    }
+    out.push('"');
+    out
+}
+
+/// JSON array of string literals
+pub fn jarr<S: AsRef<str>>(items: impl IntoIterator<Item = S>) -> String {
+    let mut out = String::from("[");
+    for (i, s) in items.into_iter().enumerate() {
+        if i > 0 {
+            out.push(',');
+        }
+        out.push_str(&jstr(s.as_ref()));
+    }
+    out.push(']');
+    out
+}
+
+/// Record one event. `fields` is the inside of a JSON object, e.g. `"id":"x","n":1`, or empty.
+///
+/// The sequence number is assigned under the sink lock so file order == seq order.
+pub fn emit(ev: &str, fields: &str) {
+    if !enabled() {
+        return;
+    }
+    let job = current_job();
+    let tid = thread_id();
+    if let Ok(mut sink) = SINK.lock()
+        && let Some(sink) = sink.as_mut()
+    {
+        sink.seq += 1;
+        let seq = sink.seq;
+        let job = job.as_deref().unwrap_or("main");
+        let _ = write!(
+            sink.out,
+            "{{\"seq\":{seq},\"tid\":{tid},\"job\":{},\"ev\":{}",
+            jstr(job),
+            jstr(ev)
+        );
+        if !fields.is_empty() {
+            let _ = write!(sink.out, ",{fields}");
+        }
+        let _ = writeln!(sink.out, "}}");
+    }
+}
+
+fn thread_id() -> u64 {
+    static NEXT: AtomicU64 = AtomicU64::new(0);
+    thread_local! {
+        static TID: u64 = NEXT.fetch_add(1, Ordering::Relaxed);
+    }
+    TID.with(|t| *t)
+}
